@@ -246,10 +246,12 @@ func Judge(o *reconlib.Outcome) vrun.Result {
 	return r
 }
 
-// replyLostWithLink: some 'wait' call's ack was read by the client but the reply the broker sent for it was never read.
+// replyLostWithLink: some 'wait' call's ack was read by the client, but the reply the broker sent for it was either never
+// read or was read only on a link incarnation that died (a message handed to a connection that is being torn down can
+// be dropped inside the client just as it can be lost on the wire; replies are not acknowledged, so nothing can be resent).
 func replyLostWithLink(o *reconlib.Outcome) bool {
 	acked := map[string]bool{}
-	replied := map[string]bool{}
+	repliedOnSurvivingLink := map[string]bool{}
 	for _, li := range o.LinkInfos {
 		for _, r := range li.Log {
 			if r.Dir != memnet.S2C || !r.OK {
@@ -259,12 +261,14 @@ func replyLostWithLink(o *reconlib.Outcome) bool {
 			case *message.UpstreamCallAck:
 				acked[m.CallID] = true
 			case *message.DownstreamCall:
-				replied[m.RequestCallID] = true
+				if li.Mode == memnet.Healthy {
+					repliedOnSurvivingLink[m.RequestCallID] = true
+				}
 			}
 		}
 	}
 	for id := range acked {
-		if !replied[id] {
+		if !repliedOnSurvivingLink[id] {
 			for _, e := range o.Ledger {
 				if uc, ok := e.Msg.(*message.UpstreamCall); ok && uc.CallID == id && uc.Name == "wait" {
 					return true
